@@ -35,7 +35,7 @@ func (e *Engine) initGlobals() {
 var skipInit = map[string]bool{
 	"runtime": true, "os": true, "syscall": true, "reflect": true, "internal/reflectlite": true, "sync": true, "sync/atomic": true,
 	"internal/poll": true, "internal/cpu": true, "internal/godebug": true, "internal/testlog": true, "internal/syscall/unix": true,
-	"time": true, "unsafe": true, "internal/bytealg": true, "internal/abi": true, "runtime/debug": true, "fmt": true, "log": true,
+	"unsafe": true, "internal/bytealg": true, "internal/abi": true, "runtime/debug": true, "fmt": true, "log": true,
 	"encoding/json": true, "flag": true, "math/rand": true, "internal/oserror": true, "io/fs": true, "path": true, "path/filepath": true,
 	"internal/fmtsort": true, "internal/itoa": true, "internal/race": true, "internal/goos": true, "internal/goarch": true,
 	"iter": true, "slices": true, "cmp": true, "maps": true, "internal/safefilepath": true, "internal/filepathlite": true,
